@@ -336,3 +336,47 @@ def workdir(name):
     d = os.path.join(WORK, name)
     os.makedirs(d, exist_ok=True)
     return d
+
+
+# ------------------------------------------------------------------------------------------------
+# trace validation (Record -> Validate)
+# ------------------------------------------------------------------------------------------------
+def validate_trace(module, cfg, cwd, rows, name, max_rejections=6, timeout=900, env=None, heap="4g"):
+    """Validates the event list `rows` with a trace specification that follows the TraceFieldOps idiom
+    (Rec == ndJsonDeserialize(IOEnv.TRACE), INVARIANT Progress == TLCSet(7, l), POSTCONDITION printing
+    <<"REJECTED_AT", k>>).  After a rejection at event k the remainder of the trace (k+1..) is validated
+    too, so one bad event does not hide the rest.  Returns (list of (index0, event) rejected,
+    states, transitions)."""
+    wd = workdir("traces")
+    rejected = []
+    base = 0
+    states = trans = 0
+    cur = rows
+    while cur:
+        path = os.path.join(wd, "%s-%d.ndjson" % (name, os.getpid()))
+        write_ndjson(path, cur)
+        e = {"TRACE": path}
+        if env:
+            e.update(env)
+        r = tlc(module, cfg, cwd=cwd, workers=1, timeout=timeout, env=e, deque=True, heap=heap)
+        states += r.distinct
+        trans += r.generated
+        os.unlink(path)
+        if r.ok:
+            break
+        m = None
+        for ln in r.prints:
+            m = re.match(r'^<<"REJECTED_AT", (\d+)>>', ln)
+            if m:
+                break
+        if not m:
+            raise ToolError("trace validation of %s failed without a REJECTED_AT line:\n%s" % (name, r.raw[-3000:]))
+        k = int(m.group(1))          # 1-based index into cur
+        if k < 1 or k > len(cur):
+            raise ToolError("trace validation reported an impossible index %d of %d" % (k, len(cur)))
+        rejected.append((base + k - 1, cur[k - 1]))
+        if len(rejected) >= max_rejections:
+            break
+        base += k
+        cur = cur[k:]
+    return rejected, states, trans
